@@ -533,6 +533,21 @@ impl Prop for C01 {
         }
     }
 
+    fn sanitizer_cases(&self, _seed: u64) -> Vec<Value> {
+        let mut v = Vec::new();
+        for a in [0usize, 1, 255, 256, 300] {
+            v.push(json!({"kind": "shape", "key": 1, "lens": [a]}));
+            for b in [0usize, 255, 256] {
+                v.push(json!({"kind": "shape", "key": 2, "lens": [a, b]}));
+            }
+        }
+        v.push(json!({"kind": "shape", "key": 3, "lens": [65536, 0, 1]}));
+        for ty in ALL_TYPES {
+            v.push(json!({"kind": "socket", "ty": ty, "idlen": if ty == "ROUTER" { 255 } else { 3 }, "shapes": [[0], [255, 256], [1, 0, 300]]}));
+        }
+        v
+    }
+
     fn floors(&self, _tier: Tier) -> Vec<(&'static str, u64)> {
         vec![
             ("codec_messages", 1400),
